@@ -22,6 +22,7 @@ fn replay_fn(prop: &str) -> Option<fn(&str, &serde_json::Value) -> Verdict> {
         "C03" => Some(props::c03::replay),
         "C04" => Some(props::c04::replay),
         "C05" => Some(props::c05::replay),
+        "C06" => Some(props::c06::replay),
         "C07" => Some(props::c07::replay),
         _ => None,
     }
@@ -57,6 +58,7 @@ fn main() {
                 "C03" => props::c03::run(&ctx),
                 "C04" => props::c04::run(&ctx),
                 "C05" => props::c05::run(&ctx),
+                "C06" => props::c06::run(&ctx),
                 "C07" => props::c07::run(&ctx),
                 _ => {
                     eprintln!("unknown property {}", prop);
